@@ -129,6 +129,15 @@ Lemma recover_refuted_lost_write :
   recovered_get (run st0 (w2 ++ [WWatchdog])) 0 <> expect_get (w2 ++ [WWatchdog]) 0 None.
 Proof. vm_compute. discriminate. Qed.
 
+(** a flushed segment that the raft pointers retain is replayed on reopen: the
+    overwritten value of key 0 comes back *)
+Definition w5 : list wop :=
+  [WAppend 1 1 (e1 [10; 52]); WPut 0 1; WRotate 2; WPut 0 2; WRotate 3; WFlush;
+   WSetHs 1 (HS 2 1 0); WFlush; WCompact 1 1].
+Lemma recover_refuted_stale_replay :
+  expect_get w5 0 None = Some 2 /\ recovered_get (run st0 w5) 0 = Some 1.
+Proof. vm_compute. split; reflexivity. Qed.
+
 (** ** what does hold: the LSM side of the flush remover and of the recovery
     cleanup, and everything when no raft group shares the WAL *)
 
